@@ -106,7 +106,12 @@ inductive Op (κ : Type) where
                     so a task can be handed to the reaper before its first segment (was: only `run_coro` added it, and
                     `task.cancel` of a created but not yet started task raised TypeError)
 * `reaperDetached` – /repo 32185a9: the reaper only calls `cmd[1].cancel()` (was: `…; await cmd[1]` – the one shared
-                    await: every later cancellation waited for the cancelled task's clean-up) -/
+                    await: every later cancellation waited for the cancelled task's clean-up)
+* `reaperWaitsForStart` – /repo ca978a8: before `cmd[1].cancel()` the reaper does
+                    `while cmd[1] in unstarted_tasks and not cmd[1].done(): await asyncio.sleep(0)`, so a task that was
+                    only just created reaches its first statement before it is cancelled (was, between e8a0175 and
+                    ca978a8: `cancel()` of a task that had not run killed it without `run_coro` ever starting – no
+                    clean-up, no done-callbacks, C14-F7) -/
 structure Cfg where
   cbContinues : Bool
   snapshotIter : Bool
@@ -114,16 +119,21 @@ structure Cfg where
   svcCtx : Bool
   oursAtCreate : Bool
   reaperDetached : Bool
+  reaperWaitsForStart : Bool
 
 /-- the code as it is now -/
 def current : Cfg :=
   { cbContinues := true, snapshotIter := true, cleanupAlways := true, svcCtx := true, oursAtCreate := true,
-    reaperDetached := true }
+    reaperDetached := true, reaperWaitsForStart := true }
 
 /-- the code before the `fix:` commits (kept for the regression theorems) -/
 def preFix : Cfg :=
   { cbContinues := false, snapshotIter := false, cleanupAlways := false, svcCtx := false, oursAtCreate := false,
-    reaperDetached := false }
+    reaperDetached := false, reaperWaitsForStart := false }
+
+/-- the code between e8a0175 and ca978a8: tasks are ours from `create_task` on, but the reaper does not yet wait for a
+new task's first statement (kept for `C14_regress_cancel_before_first_segment`) -/
+def preF7 : Cfg := { current with reaperWaitsForStart := false }
 
 variable {κ : Type} [DecidableEq κ]
 
@@ -297,9 +307,13 @@ def markUnstarted (s : St κ) : St κ :=
   | h :: q => { s with u := { s.u with reaperQ := q, cancelReq := upd s.u.cancelReq h true, reaping := none } }
   | [] => s
 
-/-- one reaper iteration -/
+/-- one reaper iteration.  Today's reaper never waits for a task's clean-up or done-callbacks; the one thing it waits
+for is the first statement of a task that has not started yet (`while cmd[1] in unstarted_tasks: await sleep(0)` – the
+task is already on the event loop's ready queue, so this holds the reaper for one loop iteration): while the head of
+the queue is such a task the step does nothing; once that task has run its first segment the step delivers as usual. -/
 def reapStep (cfg : Cfg) (s : St κ) : St κ :=
-  if headUnstarted s then markUnstarted s else { s with u := C13.reapStepCfg (!cfg.reaperDetached) s.u }
+  if headUnstarted s then (if cfg.reaperWaitsForStart then s else markUnstarted s)
+  else { s with u := C13.reapStepCfg (!cfg.reaperDetached) s.u }
 
 def step (cfg : Cfg) (s : St κ) : Op κ → St κ
   | .create t wc pre => createStep cfg s t wc pre
